@@ -21,6 +21,15 @@ func storedValue(r refRecord) (val []byte, ok bool) {
 // share the key hash of the group's first key.
 func installCollisions(p *Plan) {
 	hashOverride = nil
+	if top, ok := p.Extra["bulkTop"]; ok {
+		// concentrate every key under one 5-digit prefix (one leaf): leaf populations beyond the
+		// C-accelerated search threshold (100) and the list-keys threshold (256)
+		t := uint64(top) << 44
+		hashOverride = func(key []byte) uint64 {
+			return (refKeyHash(key) & 0x00000fffffffffff) | t
+		}
+		return
+	}
 	if len(p.Groups) == 0 {
 		return
 	}
